@@ -60,9 +60,15 @@ type node struct {
 	Broken  bool   `json:"broken,omitempty"`
 	// BrokenRef: the error is a reference to a variable that is not visible to this role, written
 	// with the very text another role (DefinesLv) uses validly
-	BrokenRef bool    `json:"broken_undefined_reference,omitempty"`
-	DefinesLv bool    `json:"defines_lv,omitempty"`
-	UsesLv    bool    `json:"uses_lv,omitempty"` // valid use: an ancestor defines it
+	BrokenRef bool `json:"broken_undefined_reference,omitempty"`
+	DefinesLv bool `json:"defines_lv,omitempty"`
+	UsesLv    bool `json:"uses_lv,omitempty"` // valid use: an ancestor defines it
+	// ListDep: the range of this (nested) iterator depends on an outer iteration variable:
+	// la when that variable is x0, lb otherwise
+	ListDep string `json:"range_depends_on,omitempty"`
+	// BrokenFor: a run-time template error (index out of range) for the element x1 of this
+	// iteration variable only
+	BrokenFor string  `json:"broken_for_x1_of,omitempty"`
 	Kids      []*node `json:"kids,omitempty"`
 }
 
@@ -96,6 +102,9 @@ func (g *gen) mk(depth int, iterVars []string) *node {
 	nd := &node{Kind: kind, Name: fmt.Sprintf("r%d", g.n)}
 	if kind != "call" && c.W(3, "iterate") == 2 {
 		nd.List, nd.Var = []string{"la", "lb"}[c.W(2, "list")], fmt.Sprintf("it%d", g.n)
+		if len(iterVars) > 0 && c.W(3, "dependent-range") == 2 {
+			nd.ListDep = iterVars[c.W(len(iterVars), "depends-on")]
+		}
 		iterVars = append(append([]string(nil), iterVars...), nd.Var)
 	}
 	switch c.W(7, "enabled") {
@@ -115,8 +124,13 @@ func (g *gen) mk(depth int, iterVars []string) *node {
 	nd.HasVar = kind != "call" && c.W(3, "vars") == 2
 	if kind != "call" && g.canBreak && c.F(20, "break-here") == 19 {
 		nd.Broken, g.canBreak = true, false
-		nd.BrokenRef = c.F(2, "broken-how") == 1
-		g.brokenRef = g.brokenRef || nd.BrokenRef
+		switch how := c.F(3, "broken-how"); {
+		case how == 1:
+			nd.BrokenRef = true
+			g.brokenRef = true
+		case how == 2 && len(iterVars) > 0:
+			nd.BrokenFor = iterVars[c.W(len(iterVars), "broken-for-var")]
+		}
 	}
 	if kind == "agg" {
 		k := 1 + c.W(3, "fanout")
@@ -134,7 +148,9 @@ func yamlNode(b *strings.Builder, nd *node, ind string) {
 	}
 	fmt.Fprintf(b, "%s- name: \"%s\"\n", ind, name)
 	in := ind + "  "
-	if nd.List != "" {
+	if nd.List != "" && nd.ListDep != "" {
+		fmt.Fprintf(b, "%sfor:\n%s  range: \"{{ %s == 'x0' ? la : lb }}\"\n%s  var: %s\n", in, in, nd.ListDep, in, nd.Var)
+	} else if nd.List != "" {
 		fmt.Fprintf(b, "%sfor:\n%s  range: \"{{ %s }}\"\n%s  var: %s\n", in, in, nd.List, in, nd.Var)
 	}
 	switch {
@@ -159,7 +175,9 @@ func yamlNode(b *strings.Builder, nd *node, ind string) {
 		if nd.UsesLv {
 			fmt.Fprintf(b, "%s  u: \"q-{{ lv }}\"\n", in)
 		}
-		if nd.Broken && nd.BrokenRef {
+		if nd.Broken && nd.BrokenFor != "" {
+			fmt.Fprintf(b, "%s  e: \"{{ FromJson(lc)[ %s == 'x1' ? 99 : 0 ] }}\"\n", in, nd.BrokenFor) // fails at run time for x1 only
+		} else if nd.Broken && nd.BrokenRef {
 			fmt.Fprintf(b, "%s  u: \"q-{{ lv }}\"\n", in) // lv is not defined for this role
 		} else if nd.Broken {
 			fmt.Fprintf(b, "%s  broken: \"{{ 1 + }}\"\n", in)
@@ -188,6 +206,12 @@ func (sc *scenario) expand(nd *node, prefix string, bind map[string]string, out 
 	elems := []string{""}
 	if nd.List != "" {
 		elems = sc.Lists[nd.List]
+		if nd.ListDep != "" {
+			elems = sc.Lists["lb"]
+			if bind[nd.ListDep] == "x0" {
+				elems = sc.Lists["la"]
+			}
+		}
 	}
 	any := false
 	for _, e := range elems {
@@ -216,7 +240,7 @@ func (sc *scenario) expand(nd *node, prefix string, bind map[string]string, out 
 		if !enabled {
 			continue
 		}
-		if nd.Broken {
+		if nd.Broken && (nd.BrokenFor == "" || b[nd.BrokenFor] == "x1") {
 			out.errReached = true
 		}
 		path := prefix + "." + name
@@ -351,7 +375,7 @@ func body(c *hk.Ctx) {
 		return `["` + strings.Join(l, `","`) + `"]`
 	}
 	var b strings.Builder
-	fmt.Fprintf(&b, "name: wfl\ndefaults:\n  fa: \"%s\"\n  fb: \"%s\"\n  base: \"b0\"\n  la: '%s'\n  lb: '%s'\nroles:\n", sc.Flags["fa"], sc.Flags["fb"], jsonList(sc.Lists["la"]), jsonList(sc.Lists["lb"]))
+	fmt.Fprintf(&b, "name: wfl\ndefaults:\n  fa: \"%s\"\n  fb: \"%s\"\n  base: \"b0\"\n  la: '%s'\n  lb: '%s'\n  lc: '[\"c0\"]'\nroles:\n", sc.Flags["fa"], sc.Flags["fb"], jsonList(sc.Lists["la"]), jsonList(sc.Lists["lb"]))
 	for _, nd := range sc.Tree {
 		yamlNode(&b, nd, "  ")
 	}
